@@ -15,7 +15,7 @@ void run_c05(sim::RunCtx& ctx) {
     common::plan_tags_and_shape(ctx, p);
     ctx.sample = p.describe();
     int bad_at = -1, bad_kind = 0;
-    if (sim::draw(6) == 5) { bad_at = (int)sim::draw(12); bad_kind = (int)sim::draw(2); }
+    if (sim::draw(6) == 5) { bad_at = (int)sim::draw(12); bad_kind = (int)sim::draw(3); }
     if (common::plan_only()) return;
     const std::string path = SIMDISK "c05.parquet";
     // 1 run in 6: one call with a column index out of range (which the API documents as an error) somewhere in the history. It must be refused; whether the writer
@@ -24,6 +24,15 @@ void run_c05(sim::RunCtx& ctx) {
     if (bad_at >= 0) { exec::g_bad_call_at = bad_at; exec::g_bad_call_kind = bad_kind; }
     exec::WriteOutcome w = exec::run_writer(p, path);
     exec::g_bad_call_at = -1;
+    if (exec::g_bad_call_made && bad_kind == 2) {
+        // one batch was left out: the columns of a row group differ in length. That is not a table; if close nevertheless says OK
+        // the file must at least be one an independent reader accepts
+        if (w.close_status != CARQUET_OK || !w.created) { ctx.refusal = true; SIM_COUNT("probe.unequal_columns_refused"); return; }
+        ref::Parsed Pu = ref::parse_file(w.image.data(), w.image.size());
+        SIM_CHECK(Pu.ok, ("peer_rejects." + Pu.error_class).c_str(), "one write_batch was left out (columns of a row group differ in length), every call incl. close returned OK, and the independent reader rejects the file: %s", Pu.error.c_str());
+        SIM_COUNT("probe.unequal_columns_accepted_and_file_valid");
+        common::end_of_run_checks(); ctx.evals = 1; return;
+    }
     if (exec::g_bad_call_made) {
         SIM_CHECK(exec::g_bad_call_status != CARQUET_OK, "contract.invalid_write_batch_accepted", "write_batch with %s returned OK", bad_kind == 0 ? "column index -1" : "column index == number of columns");
         SIM_COUNT(w.close_status == CARQUET_OK ? "probe.invalid_call_refused_writer_carried_on" : "probe.invalid_call_refused_writer_gave_up");
